@@ -43,6 +43,12 @@ impl<S: Storage> InsertExecutor<S> {
         #[for_await]
         for chunk in child {
             let chunk = Evaluator::new(&expr).eval_list(&chunk?)?;
+            // a NOT NULL (or primary key) column never comes to hold NULL
+            for (col, array) in columns.iter().zip(chunk.arrays()) {
+                if !col.is_nullable() && array.count() != array.len() {
+                    Err(ExecutorError::not_nullable())?;
+                }
+            }
             cnt += chunk.cardinality();
             txn.append(chunk).await?;
         }
